@@ -2,6 +2,10 @@ import PromModel.Tsdb.HistLayout
 import PromModel.Tsdb.Merge
 import PromProofs.HistLayout
 import PromModel.Suites.HintSuite
+import PromProofs.HistHint
+import PromProofs.MergeHintGlue
+import PromProofs.HistWitness
+import PromProofs.HistValid
 /-
   C12 — Counter-reset hints returned by queries are sound (layout level).
   Model: C11's chunk appender (`Prom.Hist.appendHist`), `hintOf` (= `counterResetHint`), `Chunk.read`,
@@ -40,14 +44,51 @@ example :
     let c := (Chunk.empty false).appendRaw 10 h1
     c.num ≠ 0 := by decide
 
-/-- Full statement for a whole chunk (kept visible; the step theorem above is its inductive step for
-    the newest pair, what is missing is that later forward recodings of the chunk keep the relation
-    for older pairs — `insert_preserves_buckets` at index level).  The judge evaluates exactly
-    `hintsSound` on every real chunk, head and query result on every run. -/
+/-- Statement for a whole chunk as originally written: over ALL `Hist` values.  Proved for valid histograms of one
+    flavour (`hint_sound_chunk`, `hint_sound_chunk_float`); false for ill-formed ones
+    (`hint_sound_chunk_full_witness`).  The judge evaluates exactly `hintsSound` on every real chunk, head and
+    query result on every run. -/
 def hint_sound_chunk_full : Prop :=
   ∀ (samples : List (Int × Hist)) (c : Chunk),
     samples.foldlM (fun (st : Chunk) (p : Int × Hist) => (appendHist none st p.1 p.2).map (·.chunk)) (Chunk.empty false) = .ok c →
     hintsSound c.read = true
+
+/-- **hint_sound_chunk.**  Every chunk built by the transcribed appender from valid histograms of one flavour
+    (any mix of counter/gauge/explicit-reset hints, staleness markers, schema/threshold/bounds changes; all four
+    outcomes of `AppendHistogram`, forward and backward recoding included) hands out sound hints: a non-stale sample
+    read with NotCounterReset is preceded in the chunk by a non-stale sample with the same layout key and no
+    decrease in count, zero count or any bucket.  This is the statement of `hint_sound_chunk_full` for valid
+    integer histograms (the `_full` text quantifies over all `Hist` values, also ill-formed ones and float
+    histograms pushed into the integer appender, which the Go types exclude). -/
+theorem hint_sound_chunk (samples : List (Int × Hist)) (c : Chunk)
+    (hwf : ∀ p ∈ samples, WFs p.2 ∧ p.2.float = false)
+    (h : samples.foldlM (fun (st : Chunk) (p : Int × Hist) => (appendHist none st p.1 p.2).map (·.chunk))
+      (Chunk.empty false) = .ok c) : hintsSound c.read = true := by
+  obtain ⟨l, inv⟩ := runChunk_inv false samples (Chunk.empty false) [] (CInv.empty false) rfl hwf c h
+  simp [hintsSound, CInv.hints_sound c l inv none 0]
+
+/-- the same for float histogram chunks -/
+theorem hint_sound_chunk_float (samples : List (Int × Hist)) (c : Chunk)
+    (hwf : ∀ p ∈ samples, WFs p.2 ∧ p.2.float = true)
+    (h : samples.foldlM (fun (st : Chunk) (p : Int × Hist) => (appendHist none st p.1 p.2).map (·.chunk))
+      (Chunk.empty true) = .ok c) : hintsSound c.read = true := by
+  obtain ⟨l, inv⟩ := runChunk_inv true samples (Chunk.empty true) [] (CInv.empty true) rfl hwf c h
+  simp [hintsSound, CInv.hints_sound c l inv none 0]
+
+/-- **hint_sound_query (head series).**  `hint_sound_query_full` for valid histograms: whatever the head-level
+    cuts, flavour switches, recodings and counter resets, the concatenation of the chunk iterators of a series
+    (what a full-range query returns) carries sound hints: every chunk starts with Unknown/Gauge, inside a chunk
+    `hint_sound_chunk` applies.  (Trimmed query ranges are excluded: `hint_first_of_trimmed_query_witness`.) -/
+theorem hint_sound_query (samples : List (Int × Hist)) (cuts : List Bool) (s : Series)
+    (hwf : ∀ p ∈ samples, WFs p.2)
+    (h : (samples.zip cuts).foldlM (fun (st : Series) (p : (Int × Hist) × Bool) =>
+      (st.append p.2 p.1.1 p.1.2).map (·.1)) Series.empty = .ok s) :
+    hintsSound s.read = true := by
+  obtain ⟨gs, inv, _⟩ := runSeries_inv (samples.zip cuts) Series.empty [] trivial
+    (fun p hp => hwf p.1 (List.of_mem_zip hp).1) s h
+  have := SInv.hints_sound _ gs inv none 0
+  have e : s.read = List.flatMap Chunk.read (s.cur.toList ++ s.done).reverse := rfl
+  rw [hintsSound, e, this]; rfl
 
 /-- **hint_sound_merge (flag level).**  The chain iterator hands out NotCounterReset only if the
     underlying sample carried it *and* the `consecutive` flag is set … -/
@@ -63,18 +104,103 @@ theorem merge_consecutive_iff_unchanged (c c' : Merge.Chain) (cur : Merge.It) (s
     c'.consecutive = !changed ∧ c'.curr = some cur :=
   Merge.finishLoop_consecutive c c' cur s h dead changed hr
 
-/-- Full statements (kept visible, not proved): soundness of the merged stream and of query results.
+/-- Statements as originally written (kept visible): soundness of the merged stream and of query results, without
+    validity hypotheses.  Proved with them: `hint_sound_merge` (sources with strictly increasing timestamps),
+    `hint_sound_query` (valid histograms), `hint_sound_query_merged` (both composed); refuted without:
+    `hint_sound_merge_full_witness`, `hint_sound_query_full_witness`.
     `unsoundAt` is the judge's predicate; suite `hint` evaluates it on the real `ChainedSeriesMerge` output
     and on the real querier's output (head, OOO head, blocks, overlapping blocks) on every run. -/
 def hint_sound_merge_full : Prop :=
   ∀ (srcs : List (List (Int × Hist))) (out : List (Int × Hist)), (∀ s ∈ srcs, hintsSound s = true) →
     Prom.HintSuite.mergeRead srcs = some out → hintsSound out = true
 
+/-- **hint_sound_merge.**  `hint_sound_merge_full` for sources with strictly increasing timestamps (what series
+    iterators deliver; without that the literal statement is false, see the witness below): merging hint-sound
+    sources with the transcribed `chainSampleIterator` (C19's `Merge.Chain`: heap, duplicate-timestamp skipping,
+    `consecutive` flag, `At*` clearing the hint) yields a hint-sound stream.  Proof: the flag is set only when the
+    returned sample directly follows the previously returned sample inside ONE source (`Merge.drain_tr`), and
+    there the source's own soundness applies; every other NotCounterReset is cleared to Unknown. -/
+theorem hint_sound_merge (srcs : List (List (Int × Hist))) (out : List (Int × Hist))
+    (hs : ∀ s ∈ srcs, hintsSound s = true) (hsorted : ∀ s ∈ srcs, (s.map (·.1)).Pairwise (· < ·))
+    (h : Prom.HintSuite.mergeRead srcs = some out) : hintsSound out = true :=
+  Prom.HintSuite.mergeRead_sound srcs out hs hsorted h
+
+/-- the chain-iterator fact behind it, at trace level: a histogram sample handed out by `At*` with
+    NotCounterReset directly follows the previously returned sample inside one input -/
+theorem merge_consecutive_adjacent (srcs : List (List Merge.Sample)) (hsorted : ∀ l ∈ srcs, Merge.SortedL l)
+    (r o : List Merge.Sample) (hd : (Merge.Chain.ofLists (srcs.map fun l => (l, false))).drain = some (r, o)) :
+    Merge.Tr srcs none r o :=
+  (Merge.drain_tr srcs hsorted r o hd).1
+
 def hint_sound_query_full : Prop :=
   ∀ (samples : List (Int × Hist)) (cuts : List Bool) (s : Series),
     (samples.zip cuts).foldlM (fun (st : Series) (p : (Int × Hist) × Bool) =>
       (st.append p.2 p.1.1 p.1.2).map (·.1)) Series.empty = .ok s →
     hintsSound s.read = true
+
+/-- **hint_sound_query, composed with C19's chain model.**  Several series (head, out-of-order head, blocks, …),
+    each built from valid histograms with strictly increasing timestamps through the transcribed head appender,
+    read in full and merged by the transcribed `chainSampleIterator` (possibly overlapping in time): the merged
+    stream a query returns carries sound hints — inside one chunk by `hint_sound_chunk`, at chunk boundaries the
+    chunk iterator says Unknown, and wherever the delivering iterator changed the chain iterator resets the hint
+    to Unknown. -/
+theorem hint_sound_query_merged (runs : List (List ((Int × Hist) × Bool) × Series)) (out : List (Int × Hist))
+    (hrun : ∀ p ∈ runs, runSeries p.1 Series.empty = .ok p.2)
+    (hwf : ∀ p ∈ runs, ∀ q ∈ p.1, WFs q.1.2)
+    (hts : ∀ p ∈ runs, (p.1.map (·.1.1)).Pairwise (· < ·))
+    (h : Prom.HintSuite.mergeRead (runs.map (·.2.read)) = some out) : hintsSound out = true := by
+  refine hint_sound_merge _ out ?_ ?_ h
+  · intro rd hrd
+    simp only [List.mem_map] at hrd
+    obtain ⟨p, hp, rfl⟩ := hrd
+    obtain ⟨gs, inv, _⟩ := runSeries_inv p.1 Series.empty [] trivial (hwf p hp) p.2 (hrun p hp)
+    have := SInv.hints_sound _ gs inv none 0
+    have e : p.2.read = List.flatMap Chunk.read (p.2.cur.toList ++ p.2.done).reverse := rfl
+    rw [hintsSound, e, this]; rfl
+  · intro rd hrd
+    simp only [List.mem_map] at hrd
+    obtain ⟨p, hp, rfl⟩ := hrd
+    obtain ⟨gs, inv, hf⟩ := runSeries_inv p.1 Series.empty [] trivial (hwf p hp) p.2 (hrun p hp)
+    have hr := SInv.read_rel _ gs inv
+    rw [hf] at hr
+    have e : p.2.read = List.flatMap Chunk.read (p.2.cur.toList ++ p.2.done).reverse := rfl
+    have hm : p.2.read.map (·.1) = (p.1.map (·.1)).map (·.1) := by
+      rw [e]; simpa using hr.map_fst
+    rw [hm, List.map_map]
+    exact hts p hp
+
+/-! ### the literal `_full` statements quantify over ill-formed inputs too and are false there -/
+
+/-- `hint_sound_chunk_full` as written (ALL `Hist` values) is false: spans `[⟨0,1⟩,⟨-1,1⟩]` enumerate bucket 0 twice;
+    the appender compares position by position, the judge looks buckets up by index.  (`Validate` rejects such
+    spans; `WF.of_valid`.)  A second witness (`HistWitness.hint_sound_chunk_full_flavour_witness_aux`) pushes a
+    float histogram through the integer appender fold, which the Go types exclude. -/
+theorem hint_sound_chunk_full_witness : ¬ hint_sound_chunk_full := by
+  intro hfull
+  obtain ⟨samples, c, hrun, hbad⟩ := Prom.HistWitness.hint_sound_chunk_full_witness_aux
+  rw [hfull samples c hrun] at hbad; cases hbad
+
+/-- `hint_sound_query_full` as written is false for the same ill-formed spans. -/
+theorem hint_sound_query_full_witness : ¬ hint_sound_query_full := by
+  intro hfull
+  obtain ⟨samples, cuts, s, hrun, hbad⟩ := Prom.HistWitness.hint_sound_query_full_witness_aux
+  rw [hfull samples cuts s hrun] at hbad; cases hbad
+
+/-- `hint_sound_merge_full` as written is false: a source that repeats a timestamp (no series iterator does) makes
+    the chain iterator skip the repeated sample inside the same input without clearing `consecutive`. -/
+theorem hint_sound_merge_full_witness : ¬ hint_sound_merge_full := by
+  intro hfull
+  obtain ⟨srcs, out, hs, hm, hbad⟩ := Prom.HistWitness.hint_sound_merge_full_witness_aux
+  rw [hfull srcs out hs hm] at hbad; cases hbad
+
+/-- **Trimmed query ranges (the positive side of finding C12-F1).**  Whatever contiguous sub-range of a hint-sound
+    stream a query returns (samples before `mint` and after `maxt` filtered out afterwards, as `DeletedIterator`
+    does), the only sample that can carry an unjustified NotCounterReset is the FIRST returned one: every
+    NotCounterReset sample that has a predecessor in the result is sound.  (`hint_first_of_trimmed_query_witness`
+    below shows the first one can indeed be flagged.) -/
+theorem hint_sound_trimmed (l : List (Int × Hist)) (h : hintsSound l = true) (k m : Nat) :
+    unsoundAt none 0 ((l.drop k).take m) = none ∨ unsoundAt none 0 ((l.drop k).take m) = some 0 :=
+  hintsSound_subrange l h k m
 
 /-- The literal statement fails for queries that start inside a chunk (finding C12-F1): the first returned
     sample keeps NotCounterReset although nothing precedes it in the result. -/
